@@ -24,6 +24,7 @@ HAS_PROOF = True
 
 TIMED = ("realudp", "realgs2", "realjava", "realtcp", "realhttp")  # entries whose case line carries the timeout in its 4th word
 SLACK_MS = 250
+LONG = 500   # ms: one extra wait of this length exceeds SLACK_MS + PER_STEP_MS per step for up to four steps
 PER_STEP_MS = 60
 
 
@@ -53,7 +54,10 @@ def run(rep, tier, seed, replay=None):
             ds = c.script[0]
             for cut in range(len(ds) + 1):
                 for fam in ("v4", "v6"):
-                    for ms in ((60,) if tier == "quick" else (60, 150)):
+                    # (LONG: a timeout long enough for ONE extra wait to stand out from the slack; those cases run in parallel lanes)
+                    for ms in ((60, LONG) if tier == "quick" else (60, 150, LONG)):
+                        if ms == LONG and (cut % 2 == 0) != (fam == "v4"):
+                            continue
                         for r in ((0, 2) if tier == "quick" else (0, 1, 2)):
                             k += 1
                             script = ",".join(d.hex() for d in ds[:cut]) or "."
@@ -65,7 +69,9 @@ def run(rep, tier, seed, replay=None):
             ds = v.case().script[0]
             for cut in range(len(ds) + 1):
                 for fam in ("v4", "v6"):
-                    for ms in ((60,) if tier == "quick" else (60, 150)):
+                    for ms in ((60, LONG) if tier == "quick" else (60, 150, LONG)):
+                        if ms == LONG and (cut % 2 == 0) != (fam == "v4"):
+                            continue
                         for r in ((0, 2) if tier == "quick" else (0, 1, 2)):
                             k += 1
                             script = ",".join(d.hex() for d in ds[:cut]) or "."
@@ -73,8 +79,8 @@ def run(rep, tier, seed, replay=None):
                             cases.append(f"{cid} realgs2 {fam} {ms} {r} {script}")
                             meta[cid] = ("udp", ms, cut, len(ds))
         for fam in ("v4", "v6"):
-            for ms in ((60,) if tier == "quick" else (60, 150)):
-                for r in ((0, 2) if tier == "quick" else (0, 1, 2, 3)):
+            for ms in ((60, LONG) if tier == "quick" else (60, 150, LONG)):
+                for r in ((0, 1, 2) if tier == "quick" else (0, 1, 2, 3)):
                     k += 1
                     cid = f"j{k}"
                     cases.append(f"{cid} realjava {fam} {ms} {r}")
@@ -163,12 +169,12 @@ def run(rep, tier, seed, replay=None):
                 famreal[i] = (vlib.result_of(mo), sent, blocked, ms, fam_)
     model = vlib.run_model([c for c in cases if c.split(" ")[1] != "realfam"])
     # the long-timeout cases side by side (they sleep most of the time), the rest one after the other
-    slow = [c for c in cases if c.split(" ")[1] == "realfam" and c.split(" ")[3] == "400"]
+    slow = [c for c in cases if c.split(" ")[1] in ("realfam", "realudp", "realgs2", "realjava") and c.split(" ")[3] in ("400", str(LONG))]
     impl, panics = vlib.run_impl([c for c in cases if c not in slow], tag="c12")
     if slow:
         from concurrent.futures import ThreadPoolExecutor
-        lanes = [slow[k::6] for k in range(6)]
-        with ThreadPoolExecutor(6) as ex:
+        lanes = [slow[k::12] for k in range(12)]
+        with ThreadPoolExecutor(12) as ex:
             for io, pa in ex.map(lambda kl: vlib.run_impl(kl[1], tag=f"c12s{kl[0]}"), [(k, l) for k, l in enumerate(lanes) if l]):
                 impl.update(io)
                 panics.update(pa)
